@@ -1,8 +1,7 @@
 /-
 C15 — the key relations: `op:same-key` (spec) is an equivalence; the two relations of the code
-(`dictEq`, `scanEq`) are equivalences too and coincide with `op:same-key` outside the decidable
-trigger predicate `keyClash` (findings F15d: xs:boolean is the integer 0/1 for Python;
-F15f: xs:date keys — year compared first, timezone presence ignored by `==`).
+(`dictEq`, `scanEq`) are equivalences too and, since the fixes of fix-c15-3, coincide with
+`op:same-key` on every pair of keys (`key_identity_all`).
 -/
 import EPV.Spec.FOMaps
 namespace EPV.MapArray
@@ -24,6 +23,7 @@ def Key.specRep : Key → SpecRep
   | .dinf n => .inf n
   | .str s => .text s
   | .uri s => .text s
+  | .unt s => .text s
   | .date _ u tz => .date u tz.isSome
   | .opq t r => .opq t r
 
@@ -72,36 +72,26 @@ theorem scanEq_trans {a b c : Key} (h1 : scanEq a b = true) (h2 : scanEq b c = t
 theorem scanEq_of_dictEq {a b : Key} (h : dictEq a b = true) : scanEq a b = true := by
   rw [dictEq_iff] at h; rw [scanEq_iff]
   cases a <;> cases b <;> simp_all [Key.dictRep, Key.eqRep]
-  obtain ⟨h1, h2⟩ := h
-  subst h2
-  split at h1 <;> split at h1 <;> split <;> split <;> simp_all <;> omega
 
 /-- `compare.same_key` is the `==` scan relation on this key domain -/
 theorem sameKeyPy_eq_scanEq (a b : Key) : sameKeyPy a b = scanEq a b := by
-  cases a <;> cases b <;> simp [sameKeyPy, scanEq, Key.eqRep, Bool.beq_eq_decide_eq]
+  cases a <;> cases b <;> simp [sameKeyPy, scanEq, Key.eqRep, Bool.beq_eq_decide_eq] <;>
+    first | exact eq_comm | exact Bool.and_comm _ _
 
-/-- Trigger predicate of the findings F15d / F15f: the code's relations and `op:same-key`
-disagree on this pair of keys. -/
+/-- the code's relations and `op:same-key` disagree on this pair of keys (kept as a definition so
+that the driver can still report it; `keyClash_false` shows it never holds) -/
 def keyClash (a b : Key) : Bool :=
   dictEq a b != sameKey a b || scanEq a b != sameKey a b
 
-/-- …which happens only for a boolean against a number (F15d), between two dates (F15f: one with,
-one without timezone) or between two opaque values (F15k: hexBinary against base64Binary). -/
-def clashShape : Key → Key → Bool
-  | .bool _, .int _ | .bool _, .dec _ | .bool _, .dbl _ _ => true
-  | .int _, .bool _ | .dec _, .bool _ | .dbl _ _, .bool _ => true
-  | .date .., .date .. => true
-  | .opq .., .opq .. => true
-  | _, _ => false
-
-theorem boolRat_inj (a b : Bool) :
-    ((if a then (1 : Rat) else 0) = (if b then (1 : Rat) else 0)) ↔ a = b := by
-  cases a <;> cases b <;> decide
-
-theorem keyClash_shape (a b : Key) (h : keyClash a b = true) : clashShape a b = true := by
+/-- **key identity**: for every pair of keys the dict relation and the scan relation of the code
+are `op:same-key` -/
+theorem key_identity_all (a b : Key) : dictEq a b = sameKey a b ∧ scanEq a b = sameKey a b := by
   cases a <;> cases b <;>
-    simp_all [keyClash, clashShape, dictEq, scanEq, sameKey, Key.dictRep, Key.eqRep, Bool.beq_eq_decide_eq,
-      boolRat_inj]
+    simp [dictEq, scanEq, sameKey, Key.dictRep, Key.eqRep, Bool.beq_eq_decide_eq] <;>
+    exact Bool.and_comm _ _
+
+theorem keyClash_false (a b : Key) : keyClash a b = false := by
+  simp [keyClash, (key_identity_all a b).1, (key_identity_all a b).2]
 
 theorem dictEq_eq_sameKey_of_not_clash {a b : Key} (h : keyClash a b = false) : dictEq a b = sameKey a b := by
   simp [keyClash] at h; exact h.1
@@ -110,6 +100,9 @@ theorem scanEq_eq_sameKey_of_not_clash {a b : Key} (h : keyClash a b = false) : 
 
 /-- no clash among a list of keys (decidable; computed by the driver for every step) -/
 def noClash (ks : List Key) : Bool := ks.all fun a => ks.all fun b => !keyClash a b
+
+theorem noClash_true (ks : List Key) : noClash ks = true := by
+  simp [noClash, keyClash_false]
 
 theorem noClash_spec {ks : List Key} (h : noClash ks = true) {a b : Key} (ha : a ∈ ks) (hb : b ∈ ks) :
     dictEq a b = sameKey a b ∧ scanEq a b = sameKey a b := by
